@@ -344,7 +344,9 @@ func (s *Stack) ForEach(expr string, fn func(index int, value any) error) error 
 	case reflect.Map:
 		keys := rv.MapKeys()
 		sort.Slice(keys, func(i, j int) bool {
-			return fmt.Sprint(keys[i].Interface()) < fmt.Sprint(keys[j].Interface())
+			// the type breaks ties between keys that print alike (1 and "1" in a map[any]any)
+			a, b := keys[i].Interface(), keys[j].Interface()
+			return fmt.Sprintf("%v|%T", a, a) < fmt.Sprintf("%v|%T", b, b)
 		})
 		for i, key := range keys {
 			if err := fn(i, rv.MapIndex(key).Interface()); err != nil {
